@@ -50,7 +50,7 @@ func walkFill(v reflect.Value, path, chain string, seen map[reflect.Type]int, vi
 		}
 		own := t.String()
 		switch {
-		case f.Type == tBytes:
+		case f.Type.Kind() == reflect.Slice && f.Type.Elem().Kind() == reflect.Uint8:
 			visit(&leaf{Path: p, Field: f.Name, Owner: own, Chain: chain, V: fv})
 		case f.Type == tBytes2:
 			if fv.Len() == 0 {
